@@ -674,8 +674,8 @@ Section Completes.
     sp_quiet (st_pool s) = true /\ quiescent s.
   Proof.
     intros R Hi Hc. pose proof (rI n np std Hn Hnp s R) as I.
-    pose proof (st_n_const n np std s R) as En.
-    assert (Q : sp_quiet (st_pool s) = true) by (eapply closed_quiet; eauto; lia).
+    assert (En : st_n s = n) by (eapply st_n_const; eauto).
+    assert (Q : sp_quiet (st_pool s) = true) by (apply (closed_quiet _ s i I); lia).
     split; auto. eapply quiet_quiescent; eauto.
   Qed.
 End Completes.
